@@ -75,6 +75,7 @@ func H_C19_checkLocal() {
 }
 
 func vRefuse(w http.ResponseWriter, r *http.Request) bool { return false }
+func vAccept(w http.ResponseWriter, r *http.Request) bool { return true }
 
 // H_C19_handler_guard: every handler registered by Serve (parameter h: 0 root, 1 torrent root,
 // 2 torrent) with the Host check refusing: the handler does nothing further - no reply is
